@@ -200,6 +200,24 @@ def gen_all(max_len):
     return gen
 
 
+def gen_long():
+    def gen():
+        for desc in spans.catalogue_long():
+            labs = spans.labels(desc)
+            enc = [spans.enc_label(x) for x in labs]
+            for lab in enc + [spans.enc_label(x) for x in spans.absent_labels(desc)]:
+                for op in ('get', 'set'):
+                    yield {'span': desc, 'op': op, 'label': lab}
+            ends = [None] + enc[::3] + enc[-1:]
+            for a in ends:
+                for b in ends:
+                    for s_ in (None, 2, 5):
+                        for op in ('get-slice', 'set-slice'):
+                            yield {'span': desc, 'op': op, 'a': a, 'b': b, 's': s_}
+    return gen
+
+
 def phases(tier):
     quick = tier == 'quick'
-    return [Phase('all-spans-labels-slices', check_case, gen=gen_all(5 if quick else 8), exhaustive=True)]
+    return [Phase('all-spans-labels-slices', check_case, gen=gen_all(5 if quick else 8), exhaustive=True),
+            Phase('long-spans', check_case, gen=gen_long())]
